@@ -118,6 +118,7 @@ fn blocking_op(sh: &ShRef, sched: &SchedRef, a: usize, sender: &Arc<Sender<Chan>
             let timeout = timeout_choice(sh);
             CS_ITEM.with(|c| c.set(Some(item)));
             CS_RESULT.with(|c| c.set(None));
+            CS_OP.with(|c| c.set(3));
             CS_WATCH.with(|c| c.set(Some(0)));
             w(sh, |w| w.log(format!("actor{a} blocking_send({item}, timeout={timeout:?}) starts")));
             DEADLINE.with(|d| d.set(Some(now.saturating_add(timeout))));
@@ -171,6 +172,7 @@ fn blocking_op(sh: &ShRef, sched: &SchedRef, a: usize, sender: &Arc<Sender<Chan>
         }
     }
     CS_ITEM.with(|c| c.set(None));
+    CS_OP.with(|c| c.set(0));
     CS_WATCH.with(|c| c.set(None));
 }
 
@@ -314,6 +316,7 @@ impl Engine for ChanThreads {
                                 sc.set_nonblocking(Some("Sender::send"));
                             }
                             let _ = start_op_kind(&sh2, a, &sender, kind);
+                            CS_OP.with(|c| c.set(0));
                             sc.set_nonblocking(None);
                         }
                         IN_SENDER_OP.with(|c| c.set(0));
